@@ -1067,6 +1067,31 @@ theorem clean_textDen (s : Str) (h : clean s = true) : clean (textDen true s) = 
 theorem nextChild_irrel (X : List Node) : kidsHtml true .nextChild X = kidsHtml true .firstChild X :=
   kidsHtml_pos X .nextChild (by intro h; cases h)
 
+theorem textareaBody_nil : textareaBody true true [] = [] := by decide
+
+/-- outside `<textarea>` (or with no children) the textarea case of the printers is the ordinary one -/
+theorem inert_body_eq (tag : Str) (kids : List Tmpl) (h : tag ≠ tTextarea ∨ kids = []) :
+    (if tag = tTextarea ∧ allLits kids = true then textareaBody true true (litConcat kids)
+     else inertKidsHtml (macroEscapes tag) kids) = inertKidsHtml (macroEscapes tag) kids := by
+  rcases h with h | rfl
+  · simp [h]
+  · split <;> simp [litConcat, inertKidsHtml, textareaBody_nil]
+
+theorem elemBody_eq (tag : Str) (x : Str) (h : tag ≠ tTextarea ∨ x = []) : elemBody tag x = x := by
+  rcases h with h | rfl
+  · simp [elemBody, h]
+  · unfold elemBody
+    split
+    · decide
+    · rfl
+
+theorem void_not_textarea {tag : Str} (h : isVoid tag = true) : tag ≠ tTextarea := by
+  intro e; subst e; revert h; decide
+
+theorem generic_not_textarea {tag : Str} (hg : genericOK tag = true) : tag ≠ tTextarea := by
+  simp only [genericOK, Bool.and_eq_true, bne_iff_ne, ne_eq] at hg
+  exact hg.2
+
 /-- **inert path, bytes**: the macro-time printer writes exactly what tachys writes for the inert view -/
 theorem inert_html : (ks : List Tmpl) → ∀ (anc : List Str), wfTs anc ks = true → inertKids ks = true →
     inertKidsHtml true ks = kidsHtml true .firstChild (inertKidsView ks)
@@ -1089,32 +1114,32 @@ theorem inert_html : (ks : List Tmpl) → ∀ (anc : List Str), wfTs anc ks = tr
     have iht := inert_html ts anc hts hits
     have hA := attrsHtml_inert attrs hia
     have hI := innerBuf_inert attrs
-    have key : ∀ (facts : isVoid tag = macroIsVoid tag)
+    have key : ∀ (facts : isVoid tag = macroIsVoid tag) (hta : tag ≠ tTextarea ∨ kids = [])
         (body : macroIsVoid tag = false →
           inertKidsHtml (macroEscapes tag) kids = kidsHtml (escapeChildren tag) .firstChild (inertKidsView kids)),
         inertKidsHtml true (.elem tag attrs kids :: ts) =
           kidsHtml true .firstChild (inertKidsView (.elem tag attrs kids :: ts)) := by
-      intro facts body
-      simp only [inertKidsView, inertKidsHtml, inertNodeHtml, kidsHtml, nodeHtml, posAfter, hA, hI, nextChild_irrel,
-        ← iht, facts, if_true]
+      intro facts hta body
+      simp only [inertKidsView, inertKidsHtml, inertNodeHtml, inert_body_eq tag kids hta, kidsHtml, nodeHtml, posAfter, hA, hI,
+        nextChild_irrel, ← iht, facts, if_true]
       cases hv : macroIsVoid tag
       · simp [body hv]
       · simp
     rcases hcase with ((⟨hg, hkids⟩ | ⟨hv, hempty⟩) | ⟨hraw, hempty⟩) | ⟨htitle, htk⟩
     · obtain ⟨f1, f2, f3, f4⟩ := generic_facts hg
       have ihk := inert_html kids (tag :: anc) hkids hik
-      exact key (by rw [f1, f3]) (fun _ => by rw [f2, f4]; exact ihk)
+      exact key (by rw [f1, f3]) (Or.inl (generic_not_textarea hg)) (fun _ => by rw [f2, f4]; exact ihk)
     · obtain ⟨f1, f2⟩ := void_facts hv
-      exact key (by rw [f1, f2]) (fun h => by rw [f2] at h; cases h)
+      exact key (by rw [f1, f2]) (Or.inl (void_not_textarea f1)) (fun h => by rw [f2] at h; cases h)
     · have hk : kids = [] := by cases kids <;> simp_all
       subst hk
       obtain ⟨f1, f2⟩ := raw_facts hraw
-      exact key (by rw [f1, f2]) (fun _ => by simp [inertKidsHtml, inertKidsView, kidsHtml])
+      exact key (by rw [f1, f2]) (Or.inr rfl) (fun _ => by simp [inertKidsHtml, inertKidsView, kidsHtml])
     · simp only [decide_eq_true_eq] at htitle
       subst htitle
       obtain ⟨f1, f2, f3, f4, _⟩ := title_facts
       have ihk := inert_html kids (tTitle :: anc) (title_wfTs htk _) hik
-      exact key (by rw [f1, f3]) (fun _ => by rw [f2, f4]; exact ihk)
+      exact key (by rw [f1, f3]) (Or.inl (by decide)) (fun _ => by rw [f2, f4]; exact ihk)
 
 /-- **inert path, meaning**: the structure of the inert view normalises to what the template denotes -/
 theorem inert_struct : (ks : List Tmpl) → ∀ (anc : List Str), wfTs anc ks = true → inertKids ks = true →
@@ -1474,32 +1499,35 @@ theorem rel_view : (t : Tmpl) → ∀ (top : Bool) (anc : List Str), wfT anc t =
       have hI : innerBuf (builderAttrs attrs) = [] := by
         simp only [attrsOK, Bool.and_eq_true] at hA
         exact innerBuf_nil _ hA.1
-      have key : ∀ (body : isVoid tag = false →
+      have key : ∀ (hta : tag ≠ tTextarea ∨ kids = []) (body : isVoid tag = false →
             expKidsHtml (escapeChildren tag) .firstChild (if macroIsVoid tag = true then [] else expandKids false kids) =
               kidsHtml (escapeChildren tag) .firstChild (if macroIsVoid tag = true then [] else viewKids true false kids)),
           Rel (expand top (.elem tag attrs kids)) (viewOf true top (.elem tag attrs kids)) := by
-        intro body
+        intro hta body
+        have heb : ∀ x : Str, (kids = [] → x = []) → elemBody tag x = x := fun x hx =>
+          elemBody_eq tag x (hta.elim Or.inl (fun hk => Or.inr (hx hk)))
         simp only [expand, viewOf, hb, Bool.true_and, if_false, Bool.false_eq_true]
         refine Rel.single ?_ rfl
         intro pos
         simp only [expHtml, nodeHtml, hI, if_true]
         cases hv : isVoid tag
-        · simp [body hv]
+        · rw [heb _ (by intro hk; subst hk; split <;> simp [expandKids, expKidsHtml])]
+          simp [body hv]
         · simp
       rcases hcase with ((⟨hg, hkids⟩ | ⟨hv, hempty⟩) | ⟨hraw, hempty⟩) | ⟨htitle, htk⟩
       · obtain ⟨f1, f2, f3, f4⟩ := generic_facts hg
         have ihk := (rel_viewKids kids false (tag :: anc) hkids).html .firstChild
-        exact key (fun _ => by simpa [f2, f3] using ihk)
+        exact key (Or.inl (generic_not_textarea hg)) (fun _ => by simpa [f2, f3] using ihk)
       · obtain ⟨f1, f2⟩ := void_facts hv
-        exact key (fun h => by rw [f1] at h; cases h)
+        exact key (Or.inl (void_not_textarea f1)) (fun h => by rw [f1] at h; cases h)
       · have hk : kids = [] := by cases kids <;> simp_all
         subst hk
-        exact key (fun _ => by simp [expandKids, viewKids, expKidsHtml, kidsHtml])
+        exact key (Or.inr rfl) (fun _ => by simp [expandKids, viewKids, expKidsHtml, kidsHtml])
       · simp only [decide_eq_true_eq] at htitle
         subst htitle
         obtain ⟨f1, f2, f3, f4, _⟩ := title_facts
         have ihk := (rel_viewKids kids false (tTitle :: anc) (title_wfTs htk _)).html .firstChild
-        exact key (fun _ => by simpa [f2, f3] using ihk)
+        exact key (Or.inl (by decide)) (fun _ => by simpa [f2, f3] using ihk)
   | .frag kids, top, anc, h => by
     simp only [wfT] at h
     simpa [expand, viewOf] using rel_viewKids kids true anc h
@@ -1511,7 +1539,8 @@ theorem rel_view : (t : Tmpl) → ∀ (top : Bool) (anc : List Str), wfT anc t =
     refine Rel.single ?_ rfl
     intro pos
     have : innerBuf ([] : List Attr) = [] := rfl
-    simp [expHtml, nodeHtml, f1, f2, this, ihk]
+    have hs : sSection ≠ tTextarea := by decide
+    simp [expHtml, nodeHtml, f1, f2, this, ihk, elemBody_eq sSection _ (Or.inl hs)]
   | .comment _, _, _, _ => by simp only [expand, viewOf]; exact Rel.nil
   | .doctype, _, _, h => by simp [wfT] at h
 theorem rel_viewKids : (ts : List Tmpl) → ∀ (top : Bool) (anc : List Str), wfTs anc ts = true →
